@@ -4,7 +4,9 @@ import json, os
 
 V = os.path.abspath(os.path.join(os.path.dirname(__file__), ".."))
 NOTE = ("Trusted: Coq 8.16.1 kernel/coqc and vm_compute (no native_compute); no axioms (Print Assumptions of every property "
-        "theorem is checked to be 'Closed under the global context' on every run); the translator py2gallina.py; the "
+        "theorem is checked to be 'Closed under the global context' on every run; the one exception is Props/C03float.v, which uses Flocq over Coq's reals "
+        "and depends on the standard library's ClassicalDedekindReals.sig_forall_dec, sig_not_dec, FunctionalExtensionality.functional_extensionality_dep and Classical_Prop.classic); the translators py2gallina.py (arithmetic kernel), py2gallina_cache.py (cache decisions), "
+        "py2gallina_revise.py (recursion of ReviseAnno over data frames: its table of pandas idioms) and py2gallina_cf.py (queue/event loops as interaction programs); the "
         "correspondence harness (generators, drivers, abstraction, float rule); CPython/pandas/numpy/h5py. "
         "Modelled, not verified: int32/float32 narrowing, pandas/h5py semantics (tied by execution).")
 
@@ -13,18 +15,22 @@ CHECKS = {
         technique="Coq proof (refinement model -> naive spec, induction over lists) + translated kernel equivalence (lia) + differential execution",
         text="Theorems c01_cells/keys/names/windows/total over the Gallina model of the data path, for all inputs and window triples; "
              "tie 1: arithmetic kernel of gene_datum.py/overlap.py/revise_annotation.py/process_genome.py re-translated and proved equal to the model kernel on every run; "
-             "tie 2: generated annotation pairs through the real library stages vs the model (vm_compute) and vs the brute-force statement.",
+             "the recursion of ReviseAnno (call_merge/merge_by_like and helpers) re-translated and proved equal to Model.Revise.revise; "
+             "tie 2: generated annotation pairs through the real library stages (windows from the code's parse_algorithm_config) vs the model (vm_compute) and vs the brute-force statement.",
         design="DESIGN.md 6 C01"),
     "C02": dict(
-        technique="Coq proof (seed-and-absorb merge keeps coverage, output separated; induction on fuel/lists) + translated kernel + differential execution",
-        text="Theorems c02_cover/disjoint/presence/chroms/length/order_free for every TE table; hit test, stop update and length formula of revise_annotation.py "
-             "re-translated and proved equal to the model on every run; recursion/termination of merge_by_like tied by running PreProcessor.process on generated tables "
-             "and comparing per-group covered sets, disjointness and lengths at Revised_*.tsv and *_TEData.tsv.",
+        technique="Coq proof (seed-and-absorb merge keeps coverage, output separated; induction on fuel/lists) + recursion of ReviseAnno translated from /repo on every run and proved equal to the model (strong induction on the frame, unique row labels) + translated kernel + differential execution",
+        text="Theorems c02_cover/disjoint/presence/chroms/length/order_free for every TE table; c02_code_refines_model / c02_code_cover_disjoint: call_merge, merge_by_like, "
+             "hit_scan_overlapping, determine_seed_stop, clear_array_by_index, set_seed_stop, update_data_frame as translated from the current sources never raise, terminate within 2n+1 calls and compute "
+             "Model.Revise.revise on every group with unique row labels; hit test, stop update and length formula also through the kernel translator; the per-group sort, group-by, relabelling "
+             "and concatenation of iterate_call_merge/_merge_all tied by running PreProcessor.process on generated tables (every fourth in an output directory used before) and comparing "
+             "per-group covered sets, disjointness and lengths at Revised_*.tsv and *_TEData.tsv.",
         design="DESIGN.md 6 C02"),
     "C03": dict(
-        technique="Coq proof (corollary of the C01 refinement: 0 <= cnt <= range length, divisor > 0) + differential execution with range check of every cell",
-        text="Theorem c03_range over the model for all inputs; pile-up generator through the real library stages, every cell of every file range-checked; thorough: Arabidopsis slice via the CLI. "
-             "float32 rounding itself is outside the model (monotone rounding argument only stated).",
+        technique="Coq proof (corollary of the C01 refinement: 0 <= cnt <= range length, divisor > 0; Flocq: binary32 rounding of such a quotient is a binary32 number in [0,1]) + differential execution with range check and bit-exact binary32(N/D) check of every cell",
+        text="Theorem c03_range over the model for all inputs; c03_float32 / c03_float32_ends (Flocq, depends on the standard library's real-number axioms, named in the trusted base): the binary32 rounding of N/D is in [0,1], "
+             "representable, and exact at 0 and 1; pile-up generator through the real library stages (every fourth case in an output directory used before), every cell of every file range-checked and "
+             "compared bit for bit with binary32(N/D); thorough: Arabidopsis slice via the CLI. That numpy's float32 division is the IEEE correctly rounded quotient is trusted and exercised by the bit-exact comparison.",
         design="DESIGN.md 6 C03"),
     "C04": dict(
         technique="Coq proof (cells depend on the rows only as a multiset: Permutation) + differential execution over row orders",
@@ -59,8 +65,9 @@ CHECKS = {
              "The OS scheduling of real processes cannot be exhibited by the model: the CLI part is exploration (stated in the evidence).",
         design="DESIGN.md 6 C10"),
     "C11": dict(
-        technique="Coq proof (invariant of a labelled transition system, induction over schedules, any k) + deterministic-scheduler replay on the real class",
-        text="Theorems c11_all_collected/never_more/terminates for every number of results and every interleaving; legacy loop refuted (c11_legacy_refuted). "
+        technique="Coq proof (invariant of a labelled transition system, induction over schedules, any k) + _ProgressBars.handle_chrome translated from /repo on every run into an interaction program and proved in lockstep with the model under every schedule + deterministic-scheduler replay on the real class",
+        text="Theorems c11_all_collected/never_more/terminates for every number of results and every interleaving; c11_code_refines_model/all_collected/never_more/terminates: the same statements about "
+             "handle_chrome (+ _pop, _collect) as translated from the current sources; legacy loop refuted (c11_legacy_refuted). "
              "Schedules enumerated from the model are replayed on the real _ProgressBars (instrumented queue/event, no hook) and compared with the model; CLI runs with many chromosomes count result files. "
              "Modelled: atomic steps = flag test, pop(+append), put, set; the GIL / Manager proxies / pool teardown are not modelled.",
         design="DESIGN.md 6 C11"),
@@ -114,8 +121,9 @@ CHECKS = {
              "group contents digested before/after every open and compared with the model. Domain: non-empty identifiers (a stored empty name is h5py's 'uninitialised' marker; c19_empty_name_note).",
         design="DESIGN.md 6 C19"),
     "C20": dict(
-        technique="Coq proof (invariant accepted ++ pending = map exec taken over all answer scripts) + scripted execution of the real run() loop",
-        text="Theorems c20_no_loss_no_dup_in_order/sentinel_complete/exit_causes for every script of queue-full / queue-empty / stop answers; legacy refuted. "
+        technique="Coq proof (invariant accepted ++ pending = map exec taken over all answer scripts) + WorkerProcess.run translated from /repo on every run into an interaction program and proved equal to the model on every script + scripted execution of the real run() loop",
+        text="Theorems c20_no_loss_no_dup_in_order/sentinel_complete/exit_causes for every script of queue-full / queue-empty / stop answers; c20_code_refines_model/no_loss_no_dup_in_order/sentinel_complete/total: "
+             "the same statements about run() (+ _send_result) as translated from the current sources, incl. no uncaught queue exception; legacy refuted. "
              "Well-typed scripts exhaustively to length 10 (13 thorough) and random ill-typed scripts to length 40 executed on the real WorkerProcess.run() with stub queues and compared with the model.",
         design="DESIGN.md 6 C20"),
 }
